@@ -26,6 +26,8 @@ CONSTANTS NHand,      \* explore rows 1..NHand of the hand-written shape table
           PickGen,    \* generated rows for which the fixed-order table is emitted
           EmitTable,  \* TRUE: serialise reflect_table.json (B2/B3 binding)
           EmitLoss,   \* TRUE: print one LOSS line per incomplete terminal state
+          Repair,     \* FALSE: the algorithm as it is in reflect.go; TRUE: the proposed repair of F6 (see below)
+          OrderIds,   \* the fixed orders emitted per shape: permutation number (j % n!) for j \in OrderIds
           TraceLen,   \* passes recorded per fixed order (forced continuation, see RunForced)
           CellK       \* layout cells with at most CellK non-default coordinates
 
@@ -114,14 +116,26 @@ ShapeSet == {Annot(Hand[i]) : i \in 1..NHand} \cup {Annot(GenShape(n)) : n \in G
 Funcs(s) == 1..Len(s.np)
 A0(s) == [g \in 0..Len(s.np) |-> IF g = 0 THEN {0} ELSE {}]    \* computePkgCache's initial table
 Known(A) == {g \in DOMAIN A : A[g] # {}}                          \* keys of the ReflectAPIs map
-Done(A, N) == Cardinality(Known(A)) + Cardinality(N)              \* len(ReflectAPIs)+len(ReflectObjectNames)
+RECURSIVE SumCard(_, _)
+SumCard(A, D) == IF D = {} THEN 0 ELSE LET g == CHOOSE x \in D : TRUE IN Cardinality(A[g]) + SumCard(A, D \ {g})
+
+(* Proposed repair of F6 (Repair = TRUE), a change of three lines in reflect.go:        *)
+(*   - checkedAPIs remembers WITH HOW MANY reflected parameters an API's call sites were  *)
+(*     checked (map[string]int); a call is skipped only if the callee still has that many; *)
+(*   - the APIs to memoise at the end of a pass are those whose current parameter count    *)
+(*     differs from the memoised one, with the count at the START of the pass;             *)
+(*   - the termination test counts parameters, not map entries.                            *)
+Entries(A) == IF Repair THEN {<<g, Cardinality(A[g])>> : g \in Known(A)} ELSE Known(A)
+Memoised(A, Ck, g) == IF Repair THEN <<g, Cardinality(A[g])>> \in Ck ELSE g \in Ck
+Done(A, N) == (IF Repair THEN SumCard(A, DOMAIN A) ELSE Cardinality(Known(A))) + Cardinality(N)
+                                                                  \* len(ReflectAPIs)+len(ReflectObjectNames)
 
 (* checkFunction(f) with checkedAPIs = Ck: calls to memoised callees are      *)
 (* skipped; for every known reflected parameter k of the callee the k-th      *)
 (* argument is recorded: a concrete type is added to the names, a parameter   *)
 (* of f joins f's own reflected parameters (written back at the end).         *)
 VisitResult(s, f, A, N, Ck) ==
-  LET live == {c \in s.byf[f] : c.g \notin Ck}
+  LET live == {c \in s.byf[f] : ~Memoised(A, Ck, c.g)}
       hits == UNION {{<<c, k>> : k \in {j \in A[c.g] : j < Len(c.args)}} : c \in live}
       newN == {ArgAt(h[1], h[2]).v : h \in {x \in hits : ArgAt(x[1], x[2]).k = "t"}}
       newP == {ArgAt(h[1], h[2]).v : h \in {x \in hits : ArgAt(x[1], x[2]).k = "p"}}
@@ -134,7 +148,7 @@ view == <<shape.id, apis, names, checked, notChecked, todo, prevDone, phase, lat
 Init ==
   /\ shape \in ShapeSet
   /\ apis = A0(shape) /\ names = {} /\ checked = {}
-  /\ notChecked = Known(A0(shape)) /\ prevDone = Done(A0(shape), {})
+  /\ notChecked = Entries(A0(shape)) /\ prevDone = Done(A0(shape), {})
   /\ todo = Funcs(shape) /\ phase = "visit" /\ pass = 1 /\ hist = << <<>> >> /\ late = FALSE
 
 (* one iteration of `for _, memb := range ssaPkg.Members` *)
@@ -152,7 +166,7 @@ EndPass ==
   /\ phase = "visit" /\ todo = {}
   /\ checked' = checked \cup notChecked
   /\ IF Done(apis, names) > prevDone
-     THEN /\ notChecked' = Known(apis) \ (checked \cup notChecked)
+     THEN /\ notChecked' = Entries(apis) \ (checked \cup notChecked)
           /\ prevDone' = Done(apis, names)
           /\ todo' = Funcs(shape) /\ pass' = pass + 1 /\ hist' = Append(hist, <<>>)
           /\ UNCHANGED phase
@@ -174,7 +188,7 @@ VisitSeq(s, ord, A, N, Ck) ==
 
 RECURSIVE RunFixedFrom(_, _, _, _, _, _)
 RunFixedFrom(s, ord, A, N, Ck, p) ==
-  LET nc == Known(A) \ Ck
+  LET nc == Entries(A) \ Ck
       o == VisitSeq(s, ord, A, N, Ck)
   IN IF Done(o[1], o[2]) > Done(A, N) THEN RunFixedFrom(s, ord, o[1], o[2], Ck \cup nc, p + 1)
      ELSE [order |-> ord, apis |-> o[1], names |-> o[2], passes |-> p]
@@ -190,7 +204,7 @@ ApiRows(A) == [g \in DOMAIN A |-> SetToSeq(A[g])]
 RECURSIVE RunForcedFrom(_, _, _, _, _, _)
 RunForcedFrom(s, ord, A, N, Ck, n) ==
   IF n = 0 THEN <<>>
-  ELSE LET nc == Known(A) \ Ck
+  ELSE LET nc == Entries(A) \ Ck
            o == VisitSeq(s, ord, A, N, Ck)
        IN <<[apis |-> ApiRows(o[1]), names |-> SetToSeq(o[2]), grew |-> Done(o[1], o[2]) > Done(A, N)]>> \o
           RunForcedFrom(s, ord, o[1], o[2], Ck \cup nc, n - 1)
@@ -201,14 +215,15 @@ RunForced(s, ord) == RunForcedFrom(s, ord, A0(s), {}, {}, TraceLen)
 
 TypeOK ==
   /\ phase \in {"visit", "done"}
-  /\ todo \subseteq Funcs(shape) /\ checked \subseteq DOMAIN apis /\ notChecked \subseteq DOMAIN apis
+  /\ todo \subseteq Funcs(shape)
+  /\ (~Repair => checked \subseteq DOMAIN apis /\ notChecked \subseteq DOMAIN apis)
   /\ \A g \in DOMAIN apis : apis[g] \subseteq 0..1
 
 (* never records more than the flow rules justify *)
 Sound == names \subseteq shape.lfpn /\ \A g \in DOMAIN apis : apis[g] \subseteq shape.lfpa[g]
 
 (* every pass but the last adds a map entry, so the number of passes is bounded *)
-PassBound == pass <= Len(shape.np) + 4
+PassBound == pass <= 2 * Len(shape.np) + 4
 
 CompleteState == names = shape.lfpn /\ apis = shape.lfpa
 
@@ -243,7 +258,9 @@ Row(s0) ==
       ps == SetToSeq(SetToSeqs(Funcs(s)))
   IN [id |-> s.id, np |-> s.np, calls |-> s.calls,
       lfp_names |-> SetToSeq(s.lfpn), lfp_apis |-> ApiRows(s.lfpa),
-      fixed |-> [i \in DOMAIN ps |-> [order |-> ps[i], trace |-> RunForced(s, ps[i])]]]
+      nperms |-> Len(ps),
+      fixed |-> LET idx == SetToSeq({(j % Len(ps)) + 1 : j \in OrderIds}) IN
+                  [k \in DOMAIN idx |-> [pi |-> idx[k] - 1, order |-> ps[idx[k]], trace |-> RunForced(s, ps[idx[k]])]]]
 AllShapes == [i \in 1..NHand |-> Hand[i]] \o SetToSeq({GenShape(n) : n \in PickGen})
 ShapeTable == IF EmitTable THEN [i \in DOMAIN AllShapes |-> Row(AllShapes[i])] ELSE <<>>
 
